@@ -345,6 +345,21 @@ def suite_swath(ctx):
             for nm, obj in (("concatenate", c), ("append", a)):
                 if not (np.array_equal(obj.lons, lons) and np.array_equal(obj.lats, lats) and tuple(obj.shape) == (H, W)):
                     ctx.fail(f"CoordinateDefinition.{nm}", "split then concatenate does not give back the coordinate arrays", {**inp, "k": k}, size=H * W)
+            # granules of different precision (float32 archive + float64 fresh, integer test grids): the result holds numpy's concatenation of the values
+            dts = [r.choice([np.float64, np.float32, np.int64, np.int16]) for _ in range(2)]
+            pa = [np.rint(v).astype(dts[0]) if np.issubdtype(dts[0], np.integer) else v.astype(dts[0]) for v in (lons[:k], lats[:k])]
+            pb = [np.rint(v).astype(dts[1]) if np.issubdtype(dts[1], np.integer) else v.astype(dts[1]) for v in (lons[k:], lats[k:])]
+            exp_l, exp_a = np.concatenate((pa[0], pb[0])), np.concatenate((pa[1], pb[1]))
+            ctx.count(f"swath.mixed_dtype.{np.dtype(dts[0]).name}+{np.dtype(dts[1]).name}")
+            a, b = SwathDefinition(pa[0].copy(), pa[1].copy()), SwathDefinition(pb[0].copy(), pb[1].copy())
+            c = a.concatenate(b)
+            a.append(b)
+            for nm, obj in (("concatenate", c), ("append", a)):
+                gl, ga = (np.asarray(v) for v in obj.get_lonlats())
+                if not (np.array_equal(np.asarray(obj.lons), exp_l) and np.array_equal(np.asarray(obj.lats), exp_a) and np.array_equal(gl, exp_l) and np.array_equal(ga, exp_a)):
+                    err = float(np.max(np.abs(np.asarray(obj.lons, float) - exp_l.astype(float)))) if np.asarray(obj.lons).shape == exp_l.shape and exp_l.size else None
+                    ctx.fail(f"CoordinateDefinition.{nm}", f"granules of dtype {np.dtype(dts[0]).name} and {np.dtype(dts[1]).name}: the result does not hold numpy's concatenation "
+                             f"of the coordinate values (max lon error {err})", {**inp, "k": k, "dtypes": [np.dtype(d).name for d in dts]}, tags={"cause": "mixed-dtype"}, size=H * W)
         if kind in ("dask", "xarray") and H >= 1:
             # granules held as dask / labelled xarray arrays: concatenation is positional, whatever the labels say
             k = r.randrange(0, H + 1)
